@@ -1306,6 +1306,43 @@ def main(a0: fp.Real) -> fp.Real:
     return v
 ''', [('fp.FP64', ['fp.SINT8.format()'], [Fraction(5)]), ('fp.FP64', ['fp.SINT8.format()'], [Fraction(4)]), ('fp.FP64', ['fp.SINT8.format()'], [Fraction(-5)]),
       ('fp.FP64', ['fp.FP16.format()'], [NAN]), ('fp.FP64', ['fp.FP16.format()'], [NINF]), ('fp.FP64', ['fp.FP16.format()'], [NZERO])]),
+    # a store through an alias inside a loop of a value whose format grows between fixpoint passes, read back
+    # through the other name
+    ('alias-store-growing-in-loop', '''@fp.fpy
+def main(a0: fp.Real) -> fp.Real:
+    with fp.REAL:
+        xs = [0.0, 0.0, 0.0]
+        ys = xs
+        t = a0
+        u = 1
+        zs = [0, 0, 0, 0]
+        ws = zs
+        for i in range(3):
+            ys[i] = t
+            t = t * 2
+            ws[i + 1] = u
+            u = u + zs[i] * 3
+        r = xs[2] + zs[3]
+    return r + xs[1] + ys[0] + ws[2]
+''', [('fp.FP64', ['fp.SINT8.format()'], [Fraction(1)]), ('fp.FP64', ['fp.SINT8.format()'], [Fraction(127)]),
+      ('fp.FP64', ['fp.FP16.format()'], [Fraction(-65504)]), ('fp.FP64', ['S(1, 2)'], [Fraction(2)])]),
+    # the length of a range whose bounds mix `c - v` and `v`: loop trip count and len() depend on the argument
+    ('range-affine-mixed-bounds', '''@fp.fpy
+def main(a0: fp.Real) -> fp.Real:
+    with fp.REAL:
+        s = 0
+        for k in range(a0, 2 - a0):
+            s = s + 1
+        n = len(range(a0, 2 - a0))
+        m = len(range(8 - a0, 12 - a0))
+        q = 0
+        for j in range(3 - a0, a0 + 9):
+            q = q + j
+        w = len(range(a0 + 1, 6 - a0)) + len(range(1 - a0, a0))
+    return s + n + m + q + w
+''', [('fp.FP64', ['fp.SINT8.format()'], [Fraction(-3)]), ('fp.FP64', ['fp.SINT8.format()'], [Fraction(1)]),
+      ('fp.FP64', ['fp.SINT8.format()'], [Fraction(0)]), ('fp.FP64', ['fp.REAL.format()'], [Fraction(-3)]),
+      ('fp.FP64', ['fp.REAL.format()'], [Fraction(5)])]),
 ]
 TEMPLATE_CTXS = ['fp.UINT8', 'fp.FixedContext(True, 0, 8, fp.RM.RTZ, fp.OV.SATURATE)', 'fp.MX_E2M1', 'fp.MPFixedContext(1, fp.RM.RAZ)',
                  'fp.IEEEContext(3, 6, fp.RM.RTP)', 'fp.FixedContext(True, 2, 6, fp.RM.RAZ, fp.OV.WRAP)']
